@@ -271,6 +271,18 @@ def scenarios(prop, tier, rng):
             out.append(("n3prog1", scen(n=3, pol=pol(3, 1, 0, "prog", consts=[False, False, False]))))
             out.append(("n3linebreak", scen(n=3, pol=pol(3, 0, 2, "linebreak"))))
             out.append(("n2linebreakL1", scen(n=2, pol=pol(2, 1, 0, "linebreak"))))
+            # every (leader, offending follower) pair for n = 3 (the leader collects several answers: which one counts?)
+            k = 0
+            for leader in range(3):
+                for bad in range(3):
+                    if bad == leader:
+                        continue
+                    what = ("prog", "leader", "linebreak")[k % 3]
+                    k += 1
+                    cs = [[True, True, True], [False, False, False], [True, False, True]][k % 3]
+                    out.append((f"n3{what}L{leader}B{bad}", scen(n=3, pol=pol(3, leader, bad, what, consts=cs))))
+                    if what != "prog":
+                        out.append((f"n3progL{leader}B{bad}", scen(n=3, pol=pol(3, leader, bad, "prog", consts=cs))))
     elif prop == "C17":
         out.append(("n2f", scen(n=2, rpcfail=1)))
         out.append(("n2fno", scen(n=2, rpcfail=1, out=[False, True], leader=0)))
